@@ -63,6 +63,7 @@ def run_one(mod, variant, rows, cols, dim, batch, nthreads):
         return ('refuted', '%s (%s)' % (e, ' <- '.join(e.stack[:2])), e.loc)
     except (Incomplete, IRError) as e:
         return ('incomplete', str(e), None)
+    hf = harness.helper_refutation(eff)
     exp = tree_spec(pt, leaf_spec(pt, rows, cols, dim, batch))
     if len(exp) != nelem:
         return ('incomplete', 'specification size', None)
@@ -71,6 +72,8 @@ def run_one(mod, variant, rows, cols, dim, batch, nthreads):
         if g is None:
             return ('refuted', 'tree cell %d (node %d) is never written' % (i, i // 4), None)
         if nf_of(g) != e.modp():
+            if hf:
+                return ('incomplete', 'a helper computing on raw representations could not be summarised (not multilinear) and the tree misses the specification with its interpolant in place', None)
             return ('refuted', 'tree cell %d (node %d, level data) differs from the binary Poseidon tree over the row digests' % (i, i // 4), None)
     if len(eff.writes) != nelem:
         return ('refuted', '%d tree cells written, getTreeNumElements gives %d' % (len(eff.writes), nelem), None)
